@@ -24,6 +24,12 @@ Proved (full strength unless marked):
 * `C16_rows_sum_one`          every row of the systematic Vandermonde matrix sums to 1 (any field; Mathlib) and the
                                executable GF(2^8) matrices for all d, p ≤ 6 by evaluation.
 * `C16_mismatch_corrupts`     `¬ C16_intact_full`: the D10 witness evaluated on the model (executable GF(2^8) code).
+Counting, after the ring is flushed (Props/C16conv.lean, same property):
+* `C16_conv_when_tuning`      a decoder that is tuning on a flushed ring (≥ 258 in-order samples of the run) adopts the
+                               sender's ratio within `d + p` further packets; `C16_conv_flushed`: ANY consistent decoder
+                               state on a flushed ring adopts within `3(d+p)` further packets (≤ 2(d+p) until a packet
+                               contradicts the old ratio, ≤ d+p until both pulses lie in the window); for
+                               `2(d+p) ≤ 258`: at the first tuning packet resp. within `2(d+p)` (`…_small`).
 Partial:
 * `C16_converges_partial`     a decoder in ANY state (ring contents, ratio, shouldTune) that is fed an in-order run
                                of ≥ 258 genuine packets below its paws' and is in the tuning branch at a packet where
